@@ -611,6 +611,12 @@ func genHistory(t *rapid.T, d *Desc, o HistOpts) []Step {
 			}
 			a := axes[rapid.IntRange(0, len(axes)-1).Draw(t, "axis")]
 			v := rapid.SampledFrom([]int32{a.Min, a.Max, a.Min, a.Max, axisSample(t, a)}).Draw(t, "excursionTo")
+			if rapid.Bool().Draw(t, "restFirst") {
+				// the axis reports its rest position under this mapping, the mapping is left, and the excursion ends after the
+				// mapping was (probably) entered again: what was remembered for it at the first visit is stale
+				h.steps = append(h.steps, Step{T: "abs", Sub: a.Sub, Code: a.Code, Val: restValue(t, a)})
+				h.tap(mapKeys[rapid.IntRange(0, len(mapKeys)-1).Draw(t, "mappingKeyAway")])
+			}
 			h.steps = append(h.steps, Step{T: "abs", Sub: a.Sub, Code: a.Code, Val: v})
 			for k := rapid.IntRange(1, 2).Draw(t, "mappingTaps"); k > 0; k-- {
 				h.tap(mapKeys[rapid.IntRange(0, len(mapKeys)-1).Draw(t, "mappingKey")])
